@@ -2,3 +2,18 @@ NA = {}
 add("C07", "pool typestate: must-store dataflow per sync.Pool acquisition site, release/ownership rules, push/pop balance, write-effect classification over the execution-reachable call graph",
     "Decides a structural necessary condition of isolation for all histories: every field of every recycled object is re-initialised on every path from Pool.Get (or proven write-before-read), objects are released once and never used/returned after release, the path stack is balanced, and no execution-reachable function writes a package-level variable or closure capture. Not a run-time equality of results; level 'other'.",
     "DESIGN.md section 4, C07")
+add("C01", "CFG must-pass-through over node events, catch-flag typestate dataflow with callee summaries (least fixpoint over interface dispatch), wrapper polarity by control dependence",
+    "Decides four structural necessary conditions of 'success means valid' for all schema trees/inputs at once (the node-handling code is finite): no silent exit from any process/validate method, issues reach the container unless CanCatch, bool-test wrappers emit exactly on predicate failure, and the child context is catch-clean at every dispatch. Not a run-time check of constraint satisfaction; level 'other'.",
+    "DESIGN.md section 4, C01")
+add("C05", "catch-flag typestate per dispatch site and flag; who-may-write rule for the flags; control-dependence rule for catch stores in the primitive pipelines",
+    "Decides confinement of Catch (every flag definitely false at every dispatch into a child, both modes), that only the pipelines/AddIssue set flags, that every swallowed failure stores the catch value and only then, and that node code never bypasses the swallowing sink. Relational equality with the catch-free schema is not decided; level 'other'.",
+    "DESIGN.md section 4, C05")
+add("C08", "write-effect classification by address-root walk (fields, loads, captures, call-site actuals) over the execution-reachable module call graph; no-go and single-owner rules",
+    "Decides race freedom of library-owned state by construction: execution code writes only call-local, pooled per-call or destination memory, starts no goroutines, and never parks pooled objects in shared memory. Does not decide equality of concurrent and sequential results; level 'other'.",
+    "DESIGN.md section 4, C08")
+add("C09", "loop-carried dependence analysis of every map-range loop (header phis, catch-flag typestate, per-iteration field definition, keyed writes, early exits)",
+    "Decides that no map-range loop carries state between iterations except through order-insensitive sinks, which is the only way map order can reach results inside the library. Go's own map semantics and $first are not decided; level 'other'.",
+    "DESIGN.md section 4, C09")
+add("C19", "write-effect classification (schema/input roots forbidden) plus value-flow from schema fields to destination stores and a guard rule for Validate-mode destination writes",
+    "Decides that no execution-reachable write targets schema- or input-owned memory, that no schema-owned reference reaches the destination uncopied, and that Validate writes the value only on default/catch paths. Deep-snapshot equality at run time is not decided; level 'other'.",
+    "DESIGN.md section 4, C19")
